@@ -259,24 +259,25 @@ func mustDec(s string) *apd.Decimal {
 func newShared(p uint32) *c18Shared {
 	s := &c18Shared{ctx: &apd.Context{Precision: p, MinExponent: -2000, MaxExponent: 2000, Rounding: apd.RoundHalfEven, Traps: apd.DefaultTraps &^ apd.Subnormal}}
 	s.ops = map[string]*apd.Decimal{
-		"a":  mustDec("123.45"),
-		"b":  mustDec("987654321098765432109876543210987654321012345.678"),
-		"h":  DecJ{Coef: "7", Exp: -1, Heap: true}.Build(),
-		"x1": mustDec("7" + strings.Repeat("0", 149) + "3"),
-		"x2": mustDec("9" + strings.Repeat("0", 169) + "1"),
-		"y3": mustDec("3"),
-		"y7": mustDec("7E-5"),
-		"t":  mustDec("2.5"),
-		"q":  mustDec("0.5"),
-		"n":  mustDec("-44.125"),
-		"z":  mustDec("1.0000001"),
-		"w":  mustDec("1E+140"),
-		"0":  mustDec("0"),
-		"1":  mustDec("1"),
-		"m1": mustDec("-1"),
+		"a":   mustDec("123.45"),
+		"b":   mustDec("987654321098765432109876543210987654321012345.678"),
+		"h":   DecJ{Coef: "7", Exp: -1, Heap: true}.Build(),
+		"x1":  mustDec("7" + strings.Repeat("0", 149) + "3"),
+		"x2":  mustDec("9" + strings.Repeat("0", 169) + "1"),
+		"y3":  mustDec("3"),
+		"y7":  mustDec("7E-5"),
+		"t":   mustDec("2.5"),
+		"q":   mustDec("0.5"),
+		"n":   mustDec("-44.125"),
+		"z":   mustDec("1.0000001"),
+		"w":   mustDec("1E+140"),
+		"0":   mustDec("0"),
+		"1":   mustDec("1"),
+		"m1":  mustDec("-1"),
 		"big": mustDec("9E+1999"),
 		"nb":  mustDec("-987654321098765432109876543210987654321012345.678"),
 		"n2":  mustDec("-44.1250"),
+		"g1":  mustDec("3E+1030"), "g2": mustDec("-7E+1100"), "g3": mustDec("11E+1200"), "g4": mustDec("5E-1050"), "g5": mustDec("9E+1400"), "g6": mustDec("-2E-1300"),
 	}
 	s.init = s.dump()
 	s.initLocal = s.dumpLocal()
@@ -403,6 +404,10 @@ func c18Scenarios() []c18Scenario {
 		{"ln||ln at precision 70 (first use of the constant-table entries beyond 64 digits)", 70, [][]c18Call{t(ctxCall1("Ln", cLn, "a")), t(ctxCall1("Ln", cLn, "t"))}, true, 1, 1},
 		{"ln||log10 at precision 200 (two constant-table entries beyond 64 digits, both tables)", 200, [][]c18Call{t(ctxCall1("Ln", cLn, "t")), t(ctxCall1("Log10", cLog10, "a"))}, true, 1, 1},
 		{"default rounding (empty Rounder on the shared Context): add||mul||round with digits to discard", 3, [][]c18Call{t(ctxCall2("Add", cAdd, "a", "b")), t(ctxCall2("Mul", cMul, "a", "t")), t(ctxCall1("Round", cRound, "b"))}, false, 1, 2},
+		{"six exponent gaps of 1030-1400 (add;sub||rem;add||sub;quointeger: powers of ten far beyond the lookup table, more of them than any small cache holds)", 6, [][]c18Call{
+			t(ctxCall2("Add", cAdd, "a", "g1"), ctxCall2("Sub", cSub, "g2", "t")),
+			t(ctxCall2("Rem", cRem, "g3", "y3"), ctxCall2("Add", cAdd, "g4", "a")),
+			t(ctxCall2("Sub", cSub, "t", "g5"), ctxCall2("Add", cAdd, "g6", "q"))}, true, 1, 1},
 		{"exp||exp (shared operand, different destinations)", 9, [][]c18Call{t(ctxCall1("Exp", cExp, "q")), t(ctxCall1("Exp", cExp, "q"))}, true, 1, 1},
 	}
 }
